@@ -455,6 +455,13 @@ class Engine:
             return UNIT
         if c.startswith('"'):
             return StrV(text=c[1:-1])
+        if len(c) >= 3 and c[0] == "'" and c[-1] == "'":
+            # char constant: its code point
+            body = c[1:-1]
+            esc = {'\\\\': '\\', "\\'": "'", '\\n': '\n', '\\t': '\t', '\\r': '\r', '\\0': '\0'}
+            body = esc.get(body, body)
+            if len(body) == 1:
+                return ord(body)
         if 'promoted[' in c:
             idx = re.search(r'promoted\[(\d+)\]', c).group(1)
             name = fr.fn.name.split('::promoted[')[0] + f'::promoted[{idx}]'
